@@ -501,14 +501,14 @@ Definition finalize (p : cparser) : Z :=
 
 (* Parser.Write *)
 Definition p_write (p : cparser) (s : sink) (b : bytes) : res (cparser * sink * Z) :=
-  match feed (S (length b)) p s b with
+  match feed (2 * length b + 2) p s b with
   | Ok (p1, s1, err) => Ok (set_err p1 (if isnil err then 0 else err), s1, err)
   | r => r
   end.
 
 (* Parser.Parse(b) on a parser in state p *)
 Definition p_parse (p : cparser) (s : sink) (b : bytes) : res (cparser * sink * Z) :=
-  match feed (S (length b)) p s b with
+  match feed (2 * length b + 2) p s b with
   | Ok (p1, s1, err) => Ok (p1, s1, if isnil err then finalize p1 else err)
   | r => r
   end.
